@@ -268,6 +268,8 @@ Section BlobRules.
                   | e1 :: more => fail_many e1 more
                   | [] =>
                     given_blob <- push_type (HBlob name sp given bargs) ;;
+                    self_ty <- var_ty kinds self ;;
+                    unify G sp self_ty given_blob ;;;
                     ret0 <- push_type HUnknown ;;
                     iterM (fun fe : string * expr =>
                              '(iret, ety) <- r_expr (afix f) (snd fe) ctx ;;
@@ -654,13 +656,16 @@ Section AccessRules.
     cbv zeta in H1.
     match type of H1 with (match ?l with _ => _ end) _ = _ => destruct l end; [|discriminate].
     apply bind_inv_pres in H1 as (gb & s4 & _ & W4 & E4 & H1); [|prs|assumption].
+    apply bind_inv_pres in H1 as (sty & s4a & _ & W4a & E4a & H1); [|prs|assumption].
+    apply bind_inv_pres in H1 as (u4b & s4b & _ & W4b & E4b & H1); [|prs|assumption].
     apply bind_inv_pres in H1 as (ret0 & s5 & _ & W5 & E5 & H1); [|prs|assumption].
     apply bind_inv_pres in H1 as (u6 & s6 & _ & W6 & E6 & H1); [|pose proof (PA f); prs|assumption].
     apply bind_inv in H1 as (u & s7 & Hu & H1). injection H1 as <- <- <-.
     destruct (unify_result_head _ _ _ _ _ _ _ W6 Hu) as (W7 & E7 & Hru & Heq).
     assert (B7 : blob_head s7 blob_ty).
     { apply (blob_head_ext s2); [|do 4 eexists; eauto].
-      eapply ext_trans; [exact E3|]. eapply ext_trans; [exact E4|]. eapply ext_trans; [exact E5|].
+      eapply ext_trans; [exact E3|]. eapply ext_trans; [exact E4|]. eapply ext_trans; [exact E4a|].
+      eapply ext_trans; [exact E4b|]. eapply ext_trans; [exact E5|].
       eapply ext_trans; [exact E6|exact E7]. }
     assert (Bu : blob_head s7 u).
     { destruct B7 as (n2 & sp2 & f2 & a2 & Hb & HK2). exists n2, sp2, f2, a2. split; [|assumption]. rewrite Hru, Heq. exact Hb. }
